@@ -236,7 +236,10 @@ def decoding(ctx, n_cases):
             if form == 0:
                 dec, P = nap.decode_1d(tcs, grp, ep, bs * f, time_units=unit, feature=feat)
             elif form == 1:
-                dec, P = nap.decode_1d(tcs, {k: nap.Ts(v) for k, v in units.items()}, ep, bs * f, time_units=unit, feature=feat)
+                # a plain dict, its keys inserted in an order that is NOT the sorted one: each unit keeps its own tuning curve
+                order = keys[::-1] if c % 2 else keys[1:] + keys[:1]
+                ctx.count("decode_dict_unsorted" if order != keys else "decode_dict_sorted")
+                dec, P = nap.decode_1d(tcs, {k: nap.Ts(units[k]) for k in order}, ep, bs * f, time_units=unit, feature=feat)
             else:
                 dec, P = nap.decode_1d(tcs, grp.count(bs, ep), ep, bs * f, time_units=unit, feature=feat)
         except Exception as e:
@@ -265,7 +268,8 @@ def decoding(ctx, n_cases):
             xy = [np.arange(nx) + 0.5, np.arange(ny) + 0.5]
             feats = nap.TsdFrame(np.arange(0, 20, 0.5), np.stack([npr.uniform(0, nx, 40), npr.uniform(0, ny, 40)], 1)) if with_feat else None
             try:
-                d2, P2 = nap.decode_2d(tc2, grp, ep, bs * f, xy, time_units=unit, features=feats)
+                g2d = grp if c % 8 else {k: nap.Ts(units[k]) for k in keys[::-1]}
+                d2, P2 = nap.decode_2d(tc2, g2d, ep, bs * f, xy, time_units=unit, features=feats)
             except Exception as e:
                 ctx.fail("oracle", "decode_2d raised %r" % (e,), inp); continue
             T = np.stack([tc2[k].ravel() for k in keys], 1)          # (nx*ny, nu)
